@@ -40,6 +40,11 @@ type checkDef struct {
 	shards      func(tier string) int
 	run         func(c *Ctx)
 	replay      func(c *Ctx, raw json.RawMessage) string
+	// post (optional) runs once in the parent on the merged counters of all shards, before the
+	// evidence is written: the place for non-vacuity assertions (c.Error) over the whole run.
+	post func(c *Ctx)
+	// finish (optional): like post, but also runs when the run was not exhaustive.
+	finish func(c *Ctx)
 }
 
 var checks = map[string]*checkDef{}
@@ -190,6 +195,12 @@ func runCheck(id string) int {
 			total.Merge(p)
 		}
 		total.Info["shards"] = n
+	}
+	if d.post != nil && total.Exhaustive {
+		d.post(&Ctx{Part: total, ID: id, Tier: tier, Seed: seed, Shard: 0, Shards: 1, Deadline: start.Add(time.Duration(deadlineS) * time.Second), VerifDir: verifDir})
+	}
+	if d.finish != nil {
+		d.finish(&Ctx{Part: total, ID: id, Tier: tier, Seed: seed, Shard: 0, Shards: n, Deadline: start.Add(time.Duration(deadlineS) * time.Second), VerifDir: verifDir})
 	}
 	wall := time.Since(start).Seconds()
 	code := evidence.Finish(verifDir, id, tier, seed, d.level, d.rule, d.assumptions, total, wall)
